@@ -17,13 +17,20 @@ def random_case(rng, max_states=3, max_trans=6, vcs=None, allow_eps_out=False):
             trans.append(t)
     starts = sorted(set(rng.randrange(n) for _ in range(rng.choice([1, 1, 2]))))
     finals = [s for s in range(n) if rng.random() < 0.5]
-    c = {"n": n, "trans": trans, "starts": starts, "finals": finals, "vc": rng.choice(vcs or ["str", "int", "short"])}
+    c = {"n": n, "trans": trans, "starts": starts, "finals": finals,
+         "vc": rng.choice(vcs or ["str", "int", "short", "inject"])}
+    if c["vc"] == "inject":
+        c["perm"] = rng.sample(range(4), 4)
     if rng.random() < 0.5:
         c["shuffle"] = rng.randrange(1 << 30)
     return c
 
 
 def sval(c, i):
+    if c["vc"] == "inject":
+        from vf.values import K
+        perm = c.get("perm") or [0, 1, 2, 3]
+        return K("q%d" % i, perm[i % len(perm)])
     return STATES[c["vc"]][i]
 
 
